@@ -79,7 +79,7 @@ theorem resetDrained_spec (k : KV) (w : k.WF) (cf : Nat) (now : Int) :
         ih (fun x hx => hm x (List.mem_cons_of_mem _ hx)) h]
   have hold : (k.resetDrained cf now).old = k.old.map g := rfl
   have hhead : (k.resetDrained cf now).head = k.head := rfl
-  refine ⟨⟨?_, ?_, ?_, ?_, ?_, ?_, ?_, ?_, ?_, ?_⟩, rfl, ?_⟩
+  refine ⟨⟨?_, ?_, ?_, ?_, ?_, ?_, ?_, ?_, ?_, ?_, ?_⟩, rfl, ?_⟩
   · intro t ht hr
     rw [hold, List.mem_map] at ht
     obtain ⟨x, hx, rfl⟩ := ht
@@ -159,6 +159,14 @@ theorem resetDrained_spec (k : KV) (w : k.WF) (cf : Nat) (now : Int) :
       split
       · rfl
       · exact w.tot x (by simp [newestFirst, hx])
+  · intro t ht
+    simp only [newestFirst, hold, hhead, List.mem_append, List.mem_map] at ht
+    rcases ht with ht | ⟨x, hx, rfl⟩
+    · exact w.layout t (by simp [newestFirst, ht])
+    · simp only [g]
+      split
+      · simp [Table.Layout, Table.reset]
+      · exact w.layout x (by simp [newestFirst, hx])
   · intro h
     simp only [newestFirst, hold, hhead, findIn_append, hfi k.old (fun _ h => h) h]
 
@@ -191,7 +199,7 @@ theorem wf_of_sublist_old (k : KV) (w : k.WF) (old' : List Table) (hs : old'.Sub
     · exact Or.inr (hm x hx)
   refine ⟨fun t ht => w.recEmpty t (hm t ht), ?_, w.headRW, fun t ht => w.oldNotRW t (hm t ht),
     fun t ht => w.alloc t (hnf t ht), fun t ht => w.recOff t (hm t ht), fun t ht => w.nodup t (hnf t ht),
-    fun t ht => w.acct t (hnf t ht), fun t ht => w.fits t (hnf t ht), fun t ht => w.tot t (hnf t ht)⟩
+    fun t ht => w.acct t (hnf t ht), fun t ht => w.fits t (hnf t ht), fun t ht => w.tot t (hnf t ht), fun t ht => w.layout t (hnf t ht)⟩
   have := w.unique
   unfold Unique newestFirst at this ⊢
   exact this.sublist ((List.Sublist.refl _).append hs)
